@@ -20,7 +20,7 @@ func (World) Real(string) []string {
 	return []string{
 		"process/sync.shardForkDetector (NewShardForkDetector, AddHeader, ReceivedSelfNotarizedFromCrossHeaders, computeFinalCheckpoint)",
 		"process/sync.metaForkDetector (NewMetaForkDetector, AddHeader)",
-		"process/sync.baseForkDetector (CheckFork, computeForkInfo, shouldSignalFork, RemoveHeader, ResetFork, ResetProbableHighestNonce, SetRollBackNonce, isConsensusStuck, checkBlockBasicValidity)",
+		"process/sync.baseForkDetector (CheckFork, computeForkInfo, shouldSignalFork, RemoveHeader, RestoreToGenesis, removePastOrInvalidRecords, ResetFork, ResetProbableHighestNonce, SetRollBackNonce, isConsensusStuck, checkBlockBasicValidity)",
 		"process.AddHeaderToBlackList + storage/timecache.TimeCache (header blacklist, 2 minutes as in factory/processComponents.go)",
 		"data/block.Header, data/block.MetaBlock",
 	}
@@ -32,7 +32,7 @@ func (World) Stub(string) []string {
 		"process.BlockTracker: returns the start header and records the self-notarized callback, which the driver invokes on 'notar' steps",
 		"clock: testing/synctest bubble clock, advanced by roundDuration per round tick (only the blacklist TimeCache reads it)",
 		"network: header arrival schedule with delay / duplicate / reorder (early and swapped deliveries) is part of the plan",
-		"block processor + sync loop: the driver keeps the own chain (process on top of head, RemoveHeader on rollback, never behind final, forced rollback + ResetFork only after the stuck signature)",
+		"block processor + sync loop: the driver keeps the own chain (process on top of head, RemoveHeader on rollback, never behind final, forced rollback + ResetFork only after the stuck signature, RestoreToGenesis empties the own chain)",
 		"header hashes are plan-provided byte strings (the detector never hashes)",
 	}
 }
@@ -41,6 +41,12 @@ func (World) Assumptions(string) []string {
 	return []string{
 		"clause (i) is exempted for exactly one CheckFork result per SetRollBackNonce call ('rollback explicitly requested') and for results with the stuck signature IsDetected && Nonce==MaxUint64 && Hash==nil ('consensus is stuck'), as baseBootstrap.isForcedRollBackOneBlock reads it",
 		"clause (ii) compares two detectors whose histories are identical except for the order of the competing RECEIVED/PROPOSED headers inside one batch of one nonce; processed, notarized and removal events are applied in the same order to both (the order of conflicting notarization callbacks is not permuted)",
+		"cross-batch variant of clause (ii): a batch of received headers may reach one twin 1-5 events later than the other (recv step with T!=0); the twins are compared (CheckFork verdict, final nonce/hash) only when no such delivery is outstanding, i.e. when both have received the same set of events under the same round clock; clause (i) is applied to each twin at every check",
+		"a shift is applied only if it cannot give the twins legitimately different information; excluded (the batch is then delivered to both twins at once): (a) windows containing an event that forgets headers or recomputes the final checkpoint without purging - RemoveHeader/rollback, ResetFork, ResetProbableHighestNonce, forced rollback, RestoreToGenesis and the self-notarized callback; (b) windows with round ticks that change a header's own classification (received-too-late: round < index-1; too early: round > index+1) between the two delivery times; (c) plans in which any header has a wrong timestamp (the blacklist is stateful: a child is rejected only if it arrives after its blacklisted parent)",
+		"observed on the UNCHANGED shard detector and therefore excluded by (a): a header that arrives before a self-notarized callback moves the final checkpoint past it (roundDif < nonceDif) stays stored until the next processed block purges it and CheckFork may select it as fork, while the same header arriving after the callback is rejected by checkBlockBasicValidity (ErrHigherNonceInBlock/ErrLowerRoundInBlock); windows containing processed blocks are NOT excluded because doJobOnBHProcessed purges with the same criterion that AddHeader rejects with",
+		"also observed on the UNCHANGED detector and excluded: highestNonceReceived keeps the nonce of a header that was accepted and later purged as invalid, while the same header arriving after the final checkpoint moved is rejected before it is counted; shouldSignalFork's same-round tie-break (!higherNonceReceived) and computeForkInfo's too-late rule read that value. The driver mirrors it from observable results (highest nonce for which AddHeader returned nil, per twin) and does not compare the fork verdicts (final nonce/hash still are) while the two values differ",
+		"a SetRollBackNonce request is tracked per twin (inside a shift window one twin may be 'stuck', which has priority, and report the request one check later); the fork verdicts are not compared at a check where only one twin still holds the request",
+		"RestoreToGenesis empties the driver's own chain; a rollback request made before the restore stays 'requested' (the unchanged detector keeps rollBackNonce across RestoreToGenesis), a restore itself requests nothing",
 		"clause (ii) also demands equal GetHighestFinalBlockNonce/Hash on the twins (DESIGN.md C20): the final checkpoint bounds which nonces CheckFork may select",
 		"the driver respects what a node can do: at most one processed header per nonce at a time (a competing block is processed only after RemoveHeader of the head), no rollback at or below the final nonce",
 		"AddHeader(BHNotarized) ('addnotar', rare) is accepted by the API although no node path issues it; it is applied identically to both twins",
@@ -49,9 +55,9 @@ func (World) Assumptions(string) []string {
 
 func (World) Rule(string) string {
 	return "block tree of 3-15 nonces (optionally starting from a non-zero start header), 1-3 competing headers per nonce with parent links, rounds increasing with nonce (same-round competitors, a silent gap of 11-18 rounds in 30% of the runs), epochs 0-3 with epoch-change forks, 1-6 byte hashes, a few headers with a wrong timestamp; " +
-		"<=60 events: round ticks, batches of received/proposed headers of one nonce (twin B gets every batch of >=2 headers in a different, never identical, order), processed headers with self-notarized lists, self-notarized callbacks (also for competing headers and foreign shards), rollback of the head, RemoveHeader, SetRollBackNonce, ResetProbableHighestNonce, ResetFork, forced rollback after the stuck signature, CheckFork after every event (70% of runs) or on explicit check steps; " +
-		"arm schedule-faults adds delay (1-4 rounds), duplicate and reorder (early arrival, swapped batches) to the arrival schedule; shard or meta detector per run; " +
-		"non-trivial = a permuted batch with >=2 accepted competing headers, an accepted processed header and a CheckFork after the permuted batch; distinct = hash of full plan"
+		"<=60 events: round ticks, batches of received/proposed headers of one nonce (twin B gets every batch of >=2 headers in a different, never identical, order), processed headers with self-notarized lists, self-notarized callbacks (also for competing headers and foreign shards), rollback of the head, RemoveHeader, SetRollBackNonce, ResetProbableHighestNonce, ResetFork, forced rollback after the stuck signature, RestoreToGenesis (15% of runs), CheckFork after every event (70% of runs) or on explicit check steps; " +
+		"in 60% of the runs up to 40% of the batches reach one of the twins 1-5 events later than the other (cross-batch order); arm schedule-faults adds delay (1-4 rounds), duplicate and reorder (early arrival, swapped batches) to the arrival schedule; shard or meta detector per run; " +
+		"non-trivial = a permuted batch with >=2 accepted competing headers or an accepted shifted batch, an accepted processed header and a twin comparison at a CheckFork afterwards; distinct = hash of full plan"
 }
 
 func (World) Budget(prop, tier string) int {
